@@ -147,6 +147,8 @@ impl Actor {
     }
 
     fn handle_message(&self, msg: Message, tables: &mut Tables) -> Result<()> {
+        #[cfg(feature = "verif-hooks")]
+        crate::verif_hooks::c39::sync_clock();
         match msg {
             Message::Get { key, res } => match get_packet(&tables.signed_packets, &key) {
                 Ok(packet) => {
@@ -316,6 +318,15 @@ impl SignedPacketStore {
     #[cfg(test)]
     pub(crate) fn in_memory(options: Options, metrics: Arc<Metrics>) -> Result<Self> {
         info!("using in-memory packet database");
+        let db = Database::builder()
+            .create_with_backend(redb::backends::InMemoryBackend::new())
+            .anyerr()?;
+        Self::open(db, options, metrics)
+    }
+
+    /// verif-hooks: in-memory store (same as the test-only [`Self::in_memory`]).
+    #[cfg(feature = "verif-hooks")]
+    pub(crate) fn verif_in_memory(options: Options, metrics: Arc<Metrics>) -> Result<Self> {
         let db = Database::builder()
             .create_with_backend(redb::backends::InMemoryBackend::new())
             .anyerr()?;
@@ -560,6 +571,110 @@ impl<T> PeekableReceiver<T> {
         } else {
             Err(msg)
         }
+    }
+}
+
+/// verif-hooks (C39): crate-visible access to the otherwise private packet store, its
+/// `CheckExpired` message, its table contents and its storage format.
+#[cfg(feature = "verif-hooks")]
+pub(crate) mod verif_c39 {
+    use redb::ReadableMultimapTable;
+
+    use super::*;
+
+    #[derive(Debug)]
+    pub(crate) struct Store(SignedPacketStore);
+
+    /// `(signed-packets rows, update-time rows)` of the last committed state.
+    pub(crate) type Dump = (Vec<([u8; 32], Vec<u8>)>, Vec<(u64, [u8; 32])>);
+
+    impl Store {
+        pub(crate) fn open_with_backend(
+            backend: impl redb::StorageBackend,
+            options: Options,
+            metrics: Arc<Metrics>,
+        ) -> Result<Self> {
+            let db = Database::builder()
+                .create_with_backend(backend)
+                .anyerr()?;
+            Ok(Self(SignedPacketStore::open(db, options, metrics)?))
+        }
+
+        pub(crate) async fn upsert(&self, packet: SignedPacket) -> Result<bool> {
+            self.0.upsert(packet).await
+        }
+
+        pub(crate) async fn get(&self, key: &PublicKeyBytes) -> Result<Option<SignedPacket>> {
+            self.0.get(key).await
+        }
+
+        /// Sends the message the evict task sends for an expired index row.
+        pub(crate) async fn check_expired(&self, time: Timestamp, key: PublicKeyBytes) -> Result<()> {
+            self.0
+                .send
+                .send(Message::CheckExpired { time, key })
+                .await
+                .anyerr()
+        }
+
+        pub(crate) async fn dump(&self) -> Result<Dump> {
+            let (tx, rx) = oneshot::channel();
+            self.0
+                .send
+                .send(Message::Snapshot { res: tx })
+                .await
+                .anyerr()?;
+            let snapshot = rx.await.anyerr()?;
+            let mut packets = Vec::new();
+            for row in snapshot.signed_packets.iter().anyerr()? {
+                let (k, v) = row.anyerr()?;
+                packets.push((*k.value(), v.value().to_vec()));
+            }
+            let mut times = Vec::new();
+            for row in snapshot.update_time.iter().anyerr()? {
+                let (t, keys) = row.anyerr()?;
+                let t = u64::from_be_bytes(t.value());
+                for key in keys {
+                    times.push((t, key.anyerr()?.value()));
+                }
+            }
+            Ok((packets, times))
+        }
+    }
+
+    pub(crate) fn serialize(packet: &SignedPacket) -> Vec<u8> {
+        super::serialize(packet)
+    }
+
+    pub(crate) fn deserialize(data: &[u8]) -> Result<SignedPacket> {
+        super::deserialize(data)
+    }
+
+    /// Writes raw rows (e.g. the pre-v0.35 value format) into a database.
+    pub(crate) fn preload(
+        backend: impl redb::StorageBackend,
+        packets: &[([u8; 32], Vec<u8>)],
+        times: &[(u64, [u8; 32])],
+    ) -> Result<()> {
+        let db = Database::builder()
+            .create_with_backend(backend)
+            .anyerr()?;
+        if packets.is_empty() && times.is_empty() {
+            // only create the database file
+            return Ok(());
+        }
+        let tx = db.begin_write().anyerr()?;
+        {
+            let mut tables = Tables::new(&tx).anyerr()?;
+            for (k, v) in packets {
+                tables.signed_packets.insert(k, &v[..]).anyerr()?;
+            }
+            for (t, k) in times {
+                tables.update_time.insert(&t.to_be_bytes(), k).anyerr()?;
+            }
+        }
+        tx.commit().anyerr()?;
+        Ok(())
     }
 }
 
